@@ -58,6 +58,7 @@ def check(ctx: Ctx, rep: Report):
     rep.rule("C20.R1", "definitions shared by all inverter objects are immutable: no method besides __init__ stores to self, no read* returns self", 40)
     rep.rule("C20.R2", "per-instance containers are fresh; class-level / module-level lists and dicts are never mutated in place", 6)
     rep.rule("C20.R3", "module-level mutable state mutated from functions is exactly {protocol._modbus_tcp_tx}, and only the function advancing it reads it", 2)
+    rep.rule("C20.R5", "no module- or class-level binding holds an exhaustible iterator (generator, chain, map, filter, zip, iter ...) that functions consume", 1)
     rep.rule("C20.R4", "request_bytes mutates self.request only in command classes never instantiated at module / class level", 1)
     prog = ctx.prog
     shared = shared_instances(ctx)
@@ -223,6 +224,35 @@ def check(ctx: Ctx, rep: Report):
                 rep.violation("C20.R3", "counter-reader:%s:%s" % (g, fn.short), fn.loc(reads[0]),
                               "%s reads the process-wide counter %s, which every inverter object advances: its behaviour then depends on what other objects did in the meantime" % (fn.short, g))
         rep.ok("C20.R3", "counter-readers:%s" % g, "goodwe/%s.py" % mname, "%s is read only by %s" % (g, [w.short for w in writers]))
+    # ---- R5: a module-/class-level iterator is consumed by whoever iterates it first: process-wide, one-shot state
+    ITER_MAKERS = {"iter", "map", "filter", "zip", "enumerate", "reversed", "chain", "chain.from_iterable", "itertools.chain",
+                   "itertools.chain.from_iterable", "itertools.islice", "islice", "itertools.cycle", "cycle", "itertools.product", "product",
+                   "itertools.zip_longest", "zip_longest", "itertools.starmap", "starmap", "itertools.accumulate", "accumulate",
+                   "itertools.takewhile", "takewhile", "itertools.dropwhile", "dropwhile", "itertools.compress", "compress",
+                   "itertools.filterfalse", "filterfalse", "itertools.count", "count", "itertools.repeat", "repeat"}
+    n5 = 0
+    for mod in prog.modules.values():
+        scopes = [("%s" % mod.short, mod.tree.body)] + [("%s.%s" % (mod.short, c.name), c.node.body) for c in prog.classes.values() if c.module is mod]
+        for label, body in scopes:
+            for st in body:
+                if not isinstance(st, (ast.Assign, ast.AnnAssign)) or st.value is None:
+                    continue
+                v = st.value
+                one_shot = isinstance(v, ast.GeneratorExp) or (isinstance(v, ast.Call) and norm(v.func) in ITER_MAKERS
+                                                                and not (isinstance(v.func, ast.Name) and (prog.lookup(mod, v.func.id) or ("",))[0] in ("func", "class")))
+                n5 += 1
+                if not one_shot:
+                    continue
+                names = [t.id for t in (st.targets if isinstance(st, ast.Assign) else [st.target]) if isinstance(t, ast.Name)]
+                for nm in names:
+                    readers = [f for f in prog.functions if nm not in _locals(f) and any(
+                        (isinstance(n, ast.Name) and n.id == nm and isinstance(n.ctx, ast.Load)) or (isinstance(n, ast.Attribute) and n.attr == nm)
+                        for n in ast.walk(f.node))]
+                    rep.check(not readers, "C20.R5", "one-shot:%s.%s" % (label, nm), "%s:%d" % (mod.relpath, st.lineno),
+                              "%s.%s is an iterator nobody reads from a function" % (label, nm),
+                              bad="%s.%s is bound once, at import, to the iterator %s and read by %s: whoever consumes it first changes what every later caller - any other inverter object included - finds in it" % (
+                                  label, nm, norm(v)[:60], ", ".join(f.short for f in readers[:4])))
+    rep.ok("C20.R5", "one-shot:scan", "goodwe/", "%d module- and class-level bindings inspected: none is an exhaustible iterator read by a function" % n5)
     # ---- R4
     base = prog.cls("ProtocolCommand")
     n4 = 0
